@@ -295,7 +295,9 @@ _R_STUBS = ["FakeFdStream scripted kernel (harness/_iostream_rig.py): each read_
             "while a read is pending and the kernel is not silent",
             "stream content is the concrete 18-byte DATA; delimiters / regexes chosen by symbolic index from "
             "3-element pools that are checked (at import) to be prefix-stable over DATA",
-            "pre-state built through the real API: one arrival of pos0+b0 bytes and read_bytes(pos0)"]
+            "pre-state built through the real API: one arrival of pos0+b0 bytes and read_bytes(pos0)",
+            "tornado loggers disabled by the rig (log output is not part of the property; the logging machinery "
+            "under the tracer multiplied paths)"]
 
 
 @harness(
